@@ -43,9 +43,17 @@ func rangeExpr(r *Rand, bs []int64, inc bool) eExpr {
 	}
 	switch r.Intn(6) {
 	case 0:
-		return eExpr{F: 2, Inc: inc, Op: 1, V: pick(r, []TV{tvInt("int64", a), tvInt("int", a), tvStr(fmt.Sprint(a))})}
+		vs := []TV{tvInt("int64", a), tvInt("int", a), tvStr(fmt.Sprint(a))}
+		if a > -(1<<40) && a < 1<<40 { // the operand as a float, as in a document decoded from JSON (integral and fractional, both signs)
+			vs = append(vs, tvFloat("float64", float64(a)), tvFloat("float64", float64(-a)), tvFloat("float64", float64(a)+0.5), tvFloat("float32", float64(a%1000)))
+		}
+		return eExpr{F: 2, Inc: inc, Op: 1, V: pick(r, vs)}
 	case 1:
-		return eExpr{F: 2, Inc: inc, Op: 2, V: pick(r, []TV{tvInt("int64", b), tvInt("int32", int64(int32(b))), tvJSON(fmt.Sprint(b))})}
+		vs := []TV{tvInt("int64", b), tvInt("int32", int64(int32(b))), tvJSON(fmt.Sprint(b))}
+		if b > -(1<<40) && b < 1<<40 {
+			vs = append(vs, tvFloat("float64", float64(b)), tvFloat("float64", float64(-b)), tvFloat("float64", float64(b)-0.5))
+		}
+		return eExpr{F: 2, Inc: inc, Op: 2, V: pick(r, vs)}
 	case 2:
 		return eExpr{F: 2, Inc: inc, V: tvSlice("[]int64", tvInt("int64", a), tvInt("int64", b), tvInt("int64", a))}
 	case 3: // narrow between
@@ -73,6 +81,81 @@ func rangeExpr(r *Rand, bs []int64, inc bool) eExpr {
 
 // rangeDocset: documents over one or two range fields (field 2, 3) and a default field (0), with queries probing every
 // bound +-1
+// rangeSplitCases: many kept intervals over one field, added in an order that splits pieces already holding 1..9
+// entries (posting lists with and without spare capacity behind them), every later interval landing on one side of an
+// earlier split, so that sibling pieces are appended to independently; ids positive, negative in ascending order
+// (entries order negatives by magnitude) and a later document entering through a lower conjunction position.
+func rangeSplitCases(add func(in interface{})) {
+	for _, kind := range []string{"kgroups", "compact"} {
+		gt := func(id, a int64) eDoc {
+			return eDoc{ID: id, Cons: []eConj{{{F: 0, Inc: true, V: tvStr("nowhere")}}, {{F: 2, Inc: true, Op: 1, V: tvInt("int64", a)}}}}
+		}
+		lt := func(id, b int64) eDoc {
+			return eDoc{ID: id, Cons: []eConj{{{F: 2, Inc: true, Op: 2, V: tvInt("int64", b)}}}}
+		}
+		bt := func(id, a, b int64) eDoc {
+			return eDoc{ID: id, Cons: []eConj{{{F: 2, Inc: true, Op: 3, V: tvSlice("[]int64", tvInt("int64", a), tvInt("int64", b))}}}}
+		}
+		probe := func(c *eCase, xs ...int64) {
+			for _, x := range xs {
+				c.Queries = append(c.Queries, eQuery{A: []eAssign{{F: 2, V: tvInt("int64", x)}}})
+			}
+		}
+		for _, k := range []int{1, 2, 3, 4, 5, 6, 7, 9} {
+			c := eCase{Kind: kind, Policy: "error", Configs: map[int]string{2: "ext_range"}}
+			id := int64(1)
+			for j := 0; j < k; j++ { // k documents covering (0, max): one piece with k entries
+				c.Docs = append(c.Docs, gt(id, 0))
+				id++
+			}
+			c.Docs = append(c.Docs, gt(id, 1000), lt(id+1, 500), gt(id+2, 2000), lt(id+3, 1500), lt(id+4, 5))
+			probe(&c, -3, 0, 1, 4, 5, 6, 499, 500, 501, 1000, 1001, 1499, 1500, 1501, 2000, 2001, 9000)
+			add(c)
+			// the same shape with between: k wide intervals, then narrower ones strictly inside, left and right
+			c2 := eCase{Kind: kind, Policy: "error", Configs: map[int]string{2: "ext_range"}}
+			for j := 0; j < k; j++ {
+				c2.Docs = append(c2.Docs, bt(int64(j+1), 0, 10000))
+			}
+			c2.Docs = append(c2.Docs, bt(int64(k+1), 2000, 3000), bt(int64(k+2), 5000, 6000), bt(int64(k+3), 2500, 5500), bt(int64(k+4), 100, 400))
+			probe(&c2, -1, 0, 99, 100, 399, 400, 1999, 2000, 2499, 2500, 2999, 3000, 4999, 5000, 5499, 5500, 5999, 6000, 9999, 10000)
+			add(c2)
+		}
+		// negative ids added in ascending order, and a later document using a LOWER conjunction position
+		c3 := eCase{Kind: kind, Policy: "error", Configs: map[int]string{2: "ext_range"}}
+		for _, id := range []int64{-40, -30, -20} {
+			c3.Docs = append(c3.Docs, bt(id, 0, 10000))
+		}
+		c3.Docs = append(c3.Docs, bt(-15, 6000, 8000), bt(-10, 0, 5000), bt(-5, 6500, 7500))
+		probe(&c3, 0, 4999, 5000, 5999, 6000, 6499, 6500, 7000, 7499, 7500, 7999, 8000, 9999)
+		add(c3)
+		c4 := eCase{Kind: kind, Policy: "error", Configs: map[int]string{2: "ext_range"}}
+		two := func(id, a, b int64) eDoc { // the interval sits in conjunction position 1
+			d := bt(id, a, b)
+			d.Cons = append([]eConj{{{F: 0, Inc: true, V: tvStr("nowhere")}}}, d.Cons...)
+			return d
+		}
+		c4.Docs = []eDoc{two(5, 0, 10000), two(6, 0, 10000), two(7, 0, 10000), bt(9, 6000, 8000), bt(8, 0, 5000), two(10, 6500, 7500)}
+		probe(&c4, 0, 4999, 5000, 6000, 6500, 7000, 7500, 8000, 9999)
+		add(c4)
+	}
+}
+
+// rangeFloatBoundCases: > and < whose operand is a float (integral and fractional, negative and positive), probed at
+// the bound and next to it
+func rangeFloatBoundCases(add func(in interface{})) {
+	for _, kind := range []string{"kgroups", "compact"} {
+		c := eCase{Kind: kind, Policy: "error", Configs: map[int]string{2: "ext_range"}}
+		for i, f := range []float64{-18, -2.5, 0, 2.5, 18, -1} {
+			c.Docs = append(c.Docs, eDoc{ID: int64(2*i + 1), Cons: []eConj{{{F: 2, Inc: true, Op: 1, V: tvFloat("float64", f)}}}},
+				eDoc{ID: int64(2*i + 2), Cons: []eConj{{{F: 2, Inc: true, Op: 2, V: tvFloat("float64", f)}}}})
+		}
+		for _, x := range []int64{-20, -19, -18, -17, -3, -2, -1, 0, 1, 2, 3, 17, 18, 19} {
+			c.Queries = append(c.Queries, eQuery{A: []eAssign{{F: 2, V: tvInt("int64", x)}}})
+		}
+		add(c)
+	}
+}
+
 func rangeDocset(r *Rand, kind string, two bool) eCase {
 	bs := genBounds(r)
 	c := eCase{Kind: kind, Policy: "error", Configs: map[int]string{2: "ext_range", 3: "ext_range"}}
@@ -140,6 +223,8 @@ func init() {
 			if tier == "thorough" {
 				n = 4000
 			}
+			rangeSplitCases(add)
+			rangeFloatBoundCases(add)
 			for i := 0; i < n; i++ {
 				kind := "kgroups"
 				if i%2 == 1 {
